@@ -11,17 +11,20 @@ TIERS = {
 # directed scenarios: deterministic histories that always place the rare boundary draws
 DIRECTED = {
     "quick": [("boundary_sweep", 101), ("boundary_sweep", 102), ("boundary_sweep", 103), ("boundary_sweep", 104),
-              ("ctor_reseed", 201), ("ctor_reseed", 202), ("keyword_calls", 301), ("bulk_distribution", 401)],
+              ("ctor_reseed", 201), ("ctor_reseed", 202), ("keyword_calls", 301), ("bulk_distribution", 401),
+              ("concurrent_callers", 501), ("concurrent_callers", 502), ("concurrent_callers", 503), ("concurrent_callers", 504)],
     "thorough": [("boundary_sweep", 100 + i) for i in range(1, 65)]
     + [("ctor_reseed", 200 + i) for i in range(1, 17)]
     + [("keyword_calls", 300 + i) for i in range(1, 9)]
-    + [("bulk_distribution", 400 + i) for i in range(1, 17)],
+    + [("bulk_distribution", 400 + i) for i in range(1, 17)]
+    + [("concurrent_callers", 500 + i) for i in range(1, 65)],
 }
 
 RULE = (
     "One evaluation = one simulated call history (10-80 steps) over a pool of probability vectors, sample-size lists, "
     "1-3 shared numpy Generator(MT19937) objects, an Experiment and the four 1-qubit tomography objects; steps are "
-    "generation calls through every entry point with the stream given as int seed / pool generator / None, interleaved "
+    "generation calls through every entry point with the stream given as int seed / pool generator / None (alone, re-entrantly, or "
+    "as 2-3 concurrent caller threads under a seeded switch list), interleaved "
     "with injected faults on the randomness seam (global-state pollution, re-seeding constructors, foreign draws on a shared "
     "generator, crafted MT19937 states whose next doubles sit on cumulative-sum boundaries). Everything is drawn from "
     "one PRNG seeded by seed_i. Distinct = digest of the (entry point, stream kind, fault kind) sequence; non-trivial = "
@@ -36,7 +39,9 @@ COMPONENTS = {
         "StandardQst / StandardPovmt / StandardQpt / StandardQmpt generate_empi_dist(s)(_sequence)",
         "numpy.random legacy global state, numpy.random.Generator(MT19937), scipy.stats.multinomial",
     ],
-    "stub": ["none: crafted streams are legal states of the real MT19937 bit generator (tempering inverted), not fakes"],
+    "stub": ["none for the streams: crafted streams are legal states of the real MT19937 bit generator (tempering inverted), not fakes",
+             "caller threads of `concurrent` steps: real threads passing a baton at quara function entries (poolsim.simpool thread level), switch list seeded or recorded",
+             "concurrent.futures.ThreadPoolExecutor -> SimThreadPoolExecutor (tasks run one at a time in a seeded order)"],
     "reference_model": "same call replayed in a fresh world (newly built objects, pristine or re-installed global state, shadow generator)",
 }
 
@@ -49,7 +54,7 @@ ASSUMPTIONS = [
 
 FAULT_KINDS = [
     "np_global_draws", "np_global_reseed", "py_random_reseed", "ctor_with_seed_data", "reset_seed", "reset_seed_noarg", "foreign_draws_on_shared_generator",
-    "crafted_boundary_stream", "crafted_extreme_stream", "in_place_operation_replacement", "reentrant_call",
+    "crafted_boundary_stream", "crafted_extreme_stream", "in_place_operation_replacement", "reentrant_call", "concurrent_callers_preempted",
 ]
 
 PROBES = [
